@@ -38,18 +38,51 @@ pub fn phase_of(l: &Lfo) -> Result<u32, String> {
 }
 
 /// a fresh oscillator placed at phase counter `c` through the public API only
+/// The statement lets one tick fall short of the ideal advance by up to one counter step (plus rounding), so a
+/// request for exactly c counts may land on c - 1: the oscillator is then nudged on by a request for d + 0.5 counts,
+/// which every conforming implementation realises as d.
 pub fn lfo_at(c: u32) -> Lfo {
     let mut l = Lfo::new(FS0);
-    if c != 0 {
-        l.set_frequency(c as f32 / 16384.0);
-        l.tick();
+    let mut target = c;
+    for _attempt in 0..6 {
+        let got = match phase_of(&l) {
+            Ok(g) => g,
+            Err(_) => break,
+        };
+        let d = c.wrapping_sub(got) & (M24 - 1);
+        if d == 0 {
+            break;
+        }
+        if d < (1 << 22) {
+            l.set_frequency((d as f32 + 0.5) / 16384.0);
+            l.tick();
+        } else if got == 0 && d == c {
+            // first move over a long distance: ask for the whole distance (exactly representable)
+            l.set_frequency(target as f32 / 16384.0);
+            l.tick();
+        } else {
+            // overshot (rounding of a large request): start again a little lower
+            target = target.saturating_sub(4 + (M24 - d));
+            l = Lfo::new(FS0);
+            if target == 0 {
+                continue;
+            }
+            l.set_frequency(target as f32 / 16384.0);
+            l.tick();
+        }
     }
     l.set_frequency(0.0);
     l
 }
 
+/// frequency request (fs = 1024 Hz) for an increment of exactly k counts per tick: k + 0.5 counts where that is
+/// representable (every conforming implementation truncates it to k, whatever its scaling), else k itself
 fn inc_freq(k: u32) -> f32 {
-    k as f32 / 16384.0
+    if k != 0 && k < (1 << 22) {
+        (k as f32 + 0.5) / 16384.0
+    } else {
+        k as f32 / 16384.0
+    }
 }
 
 pub type Finding = (&'static str, &'static str, String);
@@ -175,7 +208,7 @@ pub struct LfoM {
 
 impl LfoM {
     pub fn new(fs: f32, freqs: Vec<f32>, phases: Vec<f32>) -> Self {
-        LfoM { lfo: Lfo::new(fs), fs, freq: 0.0, freqs, phases }
+        LfoM { lfo: Lfo::new(fs), fs, freq: f32::NAN, freqs, phases }
     }
 }
 
@@ -220,7 +253,12 @@ impl Machine for LfoM {
                 }
                 match op {
                     LfoOp::Tick => {
-                        c11_tick(self.fs, self.freq, c0, c1, &mut fnd);
+                        // no property fixes the frequency of an oscillator before its first set_frequency
+                        if self.freq.is_nan() {
+                            out.count("ticks_before_the_first_set_frequency");
+                        } else {
+                            c11_tick(self.fs, self.freq, c0, c1, &mut fnd);
+                        }
                         c12_pair(c0, &s0, c1, &s1, &mut fnd);
                         out.count("ticks");
                         if c1 < c0 {
@@ -312,7 +350,7 @@ fn viol(prop: &'static str, class: &str, detail: String, fs: f32, ops: Vec<Strin
 fn place_script(c: u32, k: u32) -> Vec<String> {
     let mut v = Vec::new();
     if c != 0 {
-        v.push(format!("freq:{:?}", inc_freq(c)));
+        v.push(format!("freq:{:?}", if c < (1 << 22) { (c as f32 + 0.5) / 16384.0 } else { c as f32 / 16384.0 }));
         v.push("tick".to_string());
     }
     v.push(format!("freq:{:?}", inc_freq(k)));
@@ -346,7 +384,16 @@ fn walk_all(ctx: &Ctx, rep: &mut Report, k: u32, do_c10: bool, do_c12: bool, do_
                     (l, c0, s)
                 }
             };
-            let got0 = phase_of(&l);
+            let mut got0 = phase_of(&l);
+            let mut s0 = s0;
+            if got0 != Ok(c0) {
+                // the realised increment is not k (allowed for large k): put the oscillator where this index wants it
+                l = lfo_at(c0);
+                l.set_frequency(inc_freq(k));
+                s0 = read(&l);
+                got0 = phase_of(&l);
+                lc.count("walk_replacements", 1);
+            }
             if got0 != Ok(c0) {
                 lc.violation(viol("C10", "up-saw", format!("expected phase counter {} but the up-saw reads {:?}", c0, got0), FS0, place_script(c0, k)));
                 continue;
@@ -453,14 +500,14 @@ pub fn c10(ctx: &Ctx) -> Report {
                     let target = a.wrapping_add(r) & (M24 - 1);
                     let d = target.wrapping_sub(cb) & (M24 - 1);
                     let per = if two_ticks { d / 2 } else { d };
-                    let f = if frac { (per as f32 + 0.5) / 16384.0 } else { inc_freq(per) };
+                    let f = if frac { (per as f32 + 0.5) / 16384.0 } else { per as f32 / 16384.0 };
                     l.set_frequency(f);
                     l.tick();
                     if two_ticks {
                         l.tick();
                     }
                     lc.count("jump_and_return_sequences", 1);
-                    let script = || vec![format!("freq:{:?}", inc_freq(a)), "tick".to_string(), format!("phase:{:?}", pb), format!("freq:{:?}", f), if two_ticks { "tick*2".to_string() } else { "tick".to_string() }];
+                    let script = || vec![format!("freq:{:?}", a as f32 / 16384.0), "tick".to_string(), format!("phase:{:?}", pb), format!("freq:{:?}", f), if two_ticks { "tick*2".to_string() } else { "tick".to_string() }];
                     let s = match std::panic::catch_unwind(std::panic::AssertUnwindSafe(|| read(&l))) {
                         Ok(s) => s,
                         Err(e) => {
@@ -908,33 +955,68 @@ pub fn set_phase_sweep(ctx: &Ctx, rep: &mut Report, stride: u64, props: &[&'stat
     rep.subruns.push(json!({"engine": "E2-sweep", "what": "set_phase over f32 bit patterns", "patterns": n, "stride": stride}));
 }
 
-/// long runs: more ticks than a 16-bit (quick) / 32-bit (thorough) counter can hold at a large odd increment, and
-/// more than 2^16 cycle wraps (f = fs and f = fs/2); the phase is compared with the exact multiple of the
-/// increment every 2^16 ticks and around tick 2^16; a panic is a violation
+/// long runs: more ticks than a 16-bit (quick) / 32-bit (thorough) counter can hold at a large odd increment and at
+/// an inexact one, and more than 2^16 (thorough: 2^32) cycle wraps (f = fs, f = fs/2). Every 2^16 ticks and around
+/// ticks 2^16 and 2^17 the advance since the last look is compared with the statement's per-tick bounds summed over
+/// those ticks (not faster than the request by more than rounding, not slower by more than rounding plus one step per
+/// tick); a panic is a violation. The runs execute in parallel, one thread each.
 pub fn long_runs(ctx: &Ctx, rep: &mut Report, prop: &'static str) {
-    let total: u64 = if ctx.tier.is_thorough() { (1u64 << 32) + 70_000 } else { (1u64 << 25) + 70_000 };
-    let runs: [(u32, u64); 3] = [(1_234_567, total), (M24, 140_000), (M24 / 2, 280_000)];
-    for (k, n) in runs {
-        let r = std::panic::catch_unwind(|| {
-            let mut l = Lfo::new(FS0);
-            l.set_frequency(inc_freq(k));
-            let mut expect: u32 = 0;
-            for t in 1..=n {
-                l.tick();
-                expect = expect.wrapping_add(k) & (M24 - 1);
-                if t % 65536 == 0 || t == n || (t > 65530 && t < 65545) || (t > 131060 && t < 131080) {
-                    let _ = read(&l);
-                    if phase_of(&l) != Ok(expect) {
-                        return Some((t, phase_of(&l), expect));
-                    }
-                }
-            }
-            None
-        });
+    let thorough = ctx.tier.is_thorough();
+    let total: u64 = if thorough { (1u64 << 32) + 70_000 } else { (1u64 << 25) + 70_000 };
+    let wraps: u64 = if thorough { (1u64 << 32) + 70_000 } else { 140_000 };
+    // (requested counts per tick, ticks)
+    let runs: Vec<(f32, u64)> = vec![(1_234_567.0, total), (M24 as f32, wraps), ((M24 / 2) as f32, 280_000), (1_234_567.4, (1u64 << 21) + 70_000), (0.75, 200_000), (16_385.5, 200_000)];
+    let check_drift = prop == "C11";
+    let results: Vec<(f32, u64, std::thread::Result<Option<(u64, String)>>)> = std::thread::scope(|sc| {
+        let hs: Vec<_> = runs
+            .iter()
+            .map(|&(x, n)| {
+                sc.spawn(move || {
+                    let r = std::panic::catch_unwind(move || {
+                        let mut l = Lfo::new(FS0);
+                        l.set_frequency(x / 16384.0);
+                        let xr = (x / 16384.0) as f64 * 16384.0; // the request as the oscillator sees it
+                        let rr = xr * (2.0f64).powi(-23) + 1e-9;
+                        let mut last_t: u64 = 0;
+                        let mut last_c: u32 = 0;
+                        for t in 1..=n {
+                            l.tick();
+                            if t % 65536 == 0 || t == n || (t > 65530 && t < 65545) || (t > 131060 && t < 131080) {
+                                let _ = read(&l);
+                                if !check_drift {
+                                    continue;
+                                }
+                                let c = match phase_of(&l) {
+                                    Ok(c) => c,
+                                    Err(e) => return Some((t, e)),
+                                };
+                                let m = (t - last_t) as f64;
+                                let lo = m * (xr - 1.0 - rr).max(0.0);
+                                let hi = m * (xr + rr);
+                                if hi - lo < M24 as f64 {
+                                    let d = (c.wrapping_sub(last_c) & (M24 - 1)) as f64;
+                                    let off = (d - lo).rem_euclid(M24 as f64);
+                                    if off > hi - lo + 1e-6 && off < M24 as f64 - 1e-6 {
+                                        return Some((t, format!("over the last {} ticks the phase counter moved from {} to {} (by {} modulo 2^24); the requested {} counts per tick allow {:.3}..{:.3}", m, last_c, c, d, xr, lo, hi)));
+                                    }
+                                }
+                                last_t = t;
+                                last_c = c;
+                            }
+                        }
+                        None
+                    });
+                    (x, n, r)
+                })
+            })
+            .collect();
+        hs.into_iter().map(|h| h.join().expect("long-run thread")).collect()
+    });
+    for (x, n, r) in results {
         match r {
             Ok(None) => {}
-            Ok(Some((t, got, expect))) => rep.violation(viol(prop, "drift-in-a-long-run", format!("after {} ticks at increment {} the phase counter is {:?}, expected {}", t, k, got, expect), FS0, vec![format!("freq:{:?}", inc_freq(k)), format!("tick*{}", t)])),
-            Err(e) => rep.violation(viol(prop, "panic-in-a-long-run", format!("the real code panicked during {} ticks at increment {} ({} cycle wraps): {}", n, k, (n as u128 * k as u128) >> 24, panic_msg(&e)), FS0, vec![format!("freq:{:?}", inc_freq(k)), format!("tick*{}", n)])),
+            Ok(Some((t, what))) => rep.violation(viol(prop, "drift-in-a-long-run", format!("after {} ticks at {} counts per tick: {}", t, x, what), FS0, vec![format!("freq:{:?}", x / 16384.0), format!("tick*{}", t)])),
+            Err(e) => rep.violation(viol(prop, "panic-in-a-long-run", format!("the real code panicked during {} ticks at {} counts per tick ({} cycle wraps): {}", n, x, ((n as f64 * x as f64) / M24 as f64) as u64, panic_msg(&e)), FS0, vec![format!("freq:{:?}", x / 16384.0), format!("tick*{}", n)])),
         }
         rep.count("long_run_ticks", n);
         rep.evaluations += n;
